@@ -39,6 +39,7 @@ type pconn struct {
 	once sync.Once
 
 	aofAt     atomic.Int64 // unix nanos at which the AOF request went through (0 = not a replication stream)
+	delivered atomic.Int64 // bytes handed to the follower on this stream since the AOF request (includes the 5 bytes of +OK and forwarded PUBLISH frames)
 	holdUntil atomic.Int64 // unix nanos until which nothing is delivered to the follower on this stream (delay in force when the request went through)
 }
 
@@ -57,6 +58,7 @@ type linkProfile struct {
 type aofReq struct {
 	pos int64
 	seq int
+	pc  *pconn
 }
 
 func (c *pconn) close() {
@@ -174,7 +176,7 @@ func (p *proxy) pipe(pc *pconn, src, dst net.Conn, fromFollower bool) {
 								// record BEFORE forwarding: anything the leader streams
 								// back happens after the request is on record
 								p.mu.Lock()
-								p.aofReqs = append(p.aofReqs, aofReq{pos: pos, seq: pc.seq})
+								p.aofReqs = append(p.aofReqs, aofReq{pos: pos, seq: pc.seq, pc: pc})
 								p.mu.Unlock()
 								now := time.Now()
 								p.mu.Lock()
@@ -206,6 +208,7 @@ func (p *proxy) pipe(pc *pconn, src, dst net.Conn, fromFollower bool) {
 				if werr := p.pacedWrite(dst, buf[:n], time.Unix(0, pc.holdUntil.Load())); werr != nil {
 					return
 				}
+				pc.delivered.Add(int64(n))
 			} else if _, werr := dst.Write(buf[:n]); werr != nil {
 				return
 			}
@@ -355,6 +358,18 @@ func (p *proxy) LiveStreams() int {
 		}
 	}
 	return n
+}
+
+// LastStream returns the resume position of the latest replication request and
+// the number of bytes delivered to the follower on that stream so far.
+func (p *proxy) LastStream() (pos, delivered int64, ok bool) {
+	p.mu.Lock()
+	defer p.mu.Unlock()
+	if len(p.aofReqs) == 0 {
+		return 0, 0, false
+	}
+	r := p.aofReqs[len(p.aofReqs)-1]
+	return r.pos, r.pc.delivered.Load(), true
 }
 
 // AllAOFReqs returns the resume positions of all requests.
